@@ -65,6 +65,37 @@ MAX_PAYLOAD = 1023
 REFOP = re.compile(r"<([ui](?:8|16|32|64|128|size)) as core::ops::(Add|Sub|Mul)<&\1>>::(add|sub|mul)")
 
 
+def _inlined_everywhere(prog, path):
+    parent_path = path.rsplit("::{closure#", 1)[0]
+    parent = prog.fn(parent_path)
+    if parent is None or path not in (getattr(prog, "inlined", {}) or {}).get(parent_path, []):
+        return False
+    def is_cl(ty):
+        return ty.get("k") == "closure" and ty.get("path") == path or (ty.get("k") == "ref" and is_cl(ty.get("to", {})))
+    for blk in parent.rec["blocks"]:
+        t = blk["term"]
+        if t["k"] == "call":
+            for a in t.get("args", []):
+                if a.get("k") in ("copy", "move") and is_cl(parent.rec["locals"][a["place"]["local"]]):
+                    return False
+        for s_ in blk["stmts"]:
+            if s_["k"] == "assign" and s_["rv"]["k"] == "aggregate" and s_["rv"].get("agg") != "closure":
+                for o in s_["rv"].get("ops", []):
+                    if o.get("k") in ("copy", "move") and is_cl(parent.rec["locals"][o["place"]["local"]]):
+                        return False
+    # nobody else names the closure
+    for q, g in prog.fns.items():
+        if q != parent_path and not q.startswith(parent_path + "::{closure#"):
+            continue
+        if q == parent_path:
+            continue
+        for blk in g.rec["blocks"]:
+            for s_ in blk["stmts"]:
+                if s_["k"] == "assign" and s_["rv"]["k"] == "aggregate" and s_["rv"].get("agg") == "closure" and s_["rv"].get("path") == path:
+                    return False
+    return True
+
+
 def closure_item_assumption(prog, f):
     """A closure whose only use is `(c1..=c2 | c1..c2).filter(closure)` is called with a reference to an item of that range:
     *arg2 lies in [c1, c2] (resp. [c1, c2-1])."""
@@ -176,6 +207,12 @@ class Inventory:
             if "{closure#" in p and p.rsplit("::{closure#", 1)[0] in getattr(self, "sem_decided", ()):
                 # a closure of a function decided by abstract interpretation is interpreted in its caller's context there
                 self.res.ob("P-sem", "%s | interpreted in the context of its parent (abstract interpretation)" % p, True, "", f.loc)
+                continue
+            if "{closure#" in p and _inlined_everywhere(prog, p):
+                # the closure's body was inlined at each place it is called (iterator adaptors expanded by inline.py) and the closure value is
+                # handed to no other function: the inlined copies are analysed with their callers' facts, a context-free second analysis of the
+                # body would only ask for facts the callers establish
+                self.res.ob("P-sem", "%s | inlined at every call site; analysed in the context of its parent" % p, True, "", f.loc)
                 continue
             if a is None and "{closure#" in p:
                 a = closure_item_assumption(prog, f)
